@@ -36,7 +36,7 @@ var c01Extra = []string{
 
 // c01Extras emits the extra programs.
 func c01Extras(emit func(synCase)) {
-	for _, src := range c01Extra {
+	for _, src := range append(append([]string{}, c01Extra...), synPairSignAtoms()...) {
 		for _, v := range synt.Variants {
 			emit(synCase{Src: src, Variant: v.Name, Kind: 1})
 		}
